@@ -179,12 +179,19 @@ CHECKS = {
        "differ by MORE than MaxConcurrency (2..6; MaxActiveTransactions down to the exact minimum), a heavy committer racing light ones, every cut n, MaxIOConcurrency 1..4, FileSize 48..1000, empty values, embedded on/off, "
        "ascending/repeated/out-of-range cuts, reopen): the observed placement (vlog, offset, length per entry) and chunk files are fed to the driver; tombstones (from the store's own log lines), "
        "error class, surviving chunk files, per-entry readability and ExportTx outcome incl. lock state are compared; independent oracle = recorded values, tx log/Alh/DualProof snapshots, "
-       "TryLock on _valBsMux, liveness bounds; plus pkg/database (vlog truncator with CopySQLCatalog, SQL, documents, restart).",
+       "TryLock on _valBsMux, liveness bounds; plus pkg/database (vlog truncator with CopySQLCatalog, SQL, documents, restart). "
+       "Database level (Store/TruncateDb.lean: the vlog truncator = CopySQLCatalog, `return err` on failure, store truncation; copy outcome as an input): db_truncator_as_in_code (facts regenerated from pkg/database/truncator.go: "
+       "one copy, the guard after it is `if err != nil { ...; return err }` without else, no store truncation before the end of the guard, one after), db_truncate_keeps_catalog + db_truncations_keep_catalog (after any sequence of "
+       "database-level truncations, writes, DDL and restarts, every copy outcome and cut, the catalog entries are readable: the copy is tx last+1 >= n), db_truncate_refused_removes_nothing, "
+       "truncate_after_failed_copy_loses_catalog (witness for the counterfactual 'log and go on'). Tie/oracle: real databases whose catalog copy FAILS as well as succeeds (catalog larger than MaxTxEntries, cancelled / expiring-at-poll-k contexts, "
+       "a DDL executed at poll k of the copy, a racing DDL writer): whatever the truncator answers, the reference schema, rows/documents/KV written at tx >= cut, new INSERTs and DDL work live and after restart; error => no chunk removed; "
+       "`c14 dbtrunc` compares the control flow given the observed copy outcome.",
   note=TB + " Modelled rather than verified: value bytes, digests and compression are not in the model (locations only); the tx log, index, AHT are represented by 'unchanged' (checked by the oracle on the real store); "
        "Go's random map iteration order over the tombstones is modelled as list order (vlogs are independent); multiapp's LRU of open chunk files, the vlog cache (disabled in the harness) and "
        "remote storage are not modelled; concurrency is abstracted into the arbitrary placement plus the explicit two-phase commit used in the K6 witness; the SQL/document level is oracle-only (no model). "
        "the vlog lock manager (vLogsCond / fetchVLog / releaseVLog) is not modelled: the lost wake-up (repaired: Broadcast) is guarded by the oracle only (deterministic recipe + liveness bounds). "
-       "Known finding left: K6 (needs a design decision); the lock leak and the lost wake-up are under 'fixed' in known_findings.json.",
+       "At the database level the causes of a failed copy, the SQL/document engines and what a catalog entry contains are not modelled (locations only; CatalogReadable = every value resolves). "
+       "Known findings left: K6 (needs a design decision); CopySQLCatalog leaks the snapshot of a failed copy (`defer tx.Cancel()` after the error return: Close answers 'snapshots not closed', refused truncations exhaust MaxActiveSnapshots); the lock leak and the lost wake-up are under 'fixed' in known_findings.json.",
   technique="Lean 4 proof (fold invariants over the two walks, filter characterisation of the discard loop, pigeonhole for the early exit of the back walk; decide for the witness and the examples) + differential correspondence on real stores",
   design="7/C14"),
  "C07": dict(
